@@ -246,7 +246,119 @@ fn gen_target(r: &mut Rng, n: usize) -> T {
     }
 }
 
-fn one_sequence(test_repo: &TestRepo, out: &mut Out, r: &mut Rng, len: usize, low_level: bool, probe_root: bool) {
+#[derive(Clone, Debug)]
+enum Op { New(Vec<usize>), Rw(usize), Ab(usize), Rebase, Bm(usize, T), Edit(usize, usize), Co(usize, usize), RmWs(usize),
+          SetWc(usize, usize), AddHead(usize), RmHead(usize), Commit }
+
+fn parse_op(s: &str) -> Option<Op> {
+    let f: Vec<&str> = s.split(':').collect();
+    let n = |x: &str| x.parse::<usize>().ok();
+    let list = |x: &str| -> Option<Vec<usize>> { if x == "-" { Some(vec![]) } else { x.split(',').map(|y| y.parse().ok()).collect() } };
+    let target = |x: &str| -> Option<T> { x.split(',').map(|y| if y == "n" { Some(None) } else { y.parse().ok().map(Some) }).collect() };
+    Some(match f.as_slice() {
+        ["new", ps] => Op::New(list(ps)?), ["rw", c] => Op::Rw(n(c)?), ["ab", c] => Op::Ab(n(c)?), ["rebase"] => Op::Rebase,
+        ["bm", b, t] => Op::Bm(n(b)?, target(t)?), ["edit", w, c] => Op::Edit(n(w)?, n(c)?), ["co", w, c] => Op::Co(n(w)?, n(c)?),
+        ["rmws", w] => Op::RmWs(n(w)?), ["setwc", w, c] => Op::SetWc(n(w)?, n(c)?), ["addhead", c] => Op::AddHead(n(c)?),
+        ["rmhead", c] => Op::RmHead(n(c)?), ["commit"] => Op::Commit, _ => return None,
+    })
+}
+
+impl Run<'_> {
+    fn apply(&mut self, op: &Op) {
+        match op {
+            Op::New(ps) => self.do_new(ps),
+            Op::Rw(c) => self.do_rewrite(*c),
+            Op::Ab(c) => self.do_abandon(*c),
+            Op::Rebase => self.do_rebase(),
+            Op::Commit => self.do_commit(),
+            Op::Bm(name, t) => {
+                let target = self.to_target(t);
+                self.txm().set_local_bookmark_target(bname(*name).as_ref(), target);
+                self.ops.push(format!("bm:{name}:{}", show_t(t)));
+            }
+            Op::Edit(w, c) => {
+                let commit = self.sim.commits[*c].clone();
+                let old = self.wc_of(*w);
+                let e = self.txm().edit(wname(*w), &commit).block_on();
+                self.ops.push(format!("edit:{w}:{c}"));
+                if e.is_err() { self.trace.push(format!("err@{}", self.ops.len() - 1)); }
+                self.note_wc_abandon(old);
+            }
+            Op::Co(w, c) => {
+                let commit = self.sim.commits[*c].clone();
+                let old = self.wc_of(*w);
+                let newc = self.txm().check_out(wname(*w), &commit).block_on().unwrap();
+                self.sim.register(&newc); self.sim.fix_parents();
+                self.ops.push(format!("co:{w}:{c}"));
+                self.note_wc_abandon(old);
+            }
+            Op::RmWs(w) => {
+                let old = self.wc_of(*w);
+                self.txm().remove_workspace(wname(*w).as_ref()).block_on().unwrap();
+                self.ops.push(format!("rmws:{w}"));
+                self.note_wc_abandon(old);
+            }
+            Op::AddHead(c) => {
+                let commit = self.sim.commits[*c].clone();
+                self.txm().add_head(&commit).block_on().unwrap();
+                self.ops.push(format!("addhead:{c}"));
+            }
+            Op::RmHead(c) => {
+                let id = self.sim.commits[*c].id().clone();
+                self.txm().remove_head(&id);
+                self.ops.push(format!("rmhead:{c}"));
+            }
+            Op::SetWc(w, c) => {
+                let id = self.sim.commits[*c].id().clone();
+                let e = self.txm().set_wc_commit(wname(*w), id);
+                self.ops.push(format!("setwc:{w}:{c}"));
+                if e.is_err() { self.trace.push(format!("err@{}", self.ops.len() - 1)); }
+            }
+        }
+    }
+}
+
+/// next random operation (may inspect the real state to stay inside the intended op set)
+fn gen_op(run: &Run, r: &mut Rng, last: bool, low_level: bool, probe_root: bool) -> Option<Op> {
+    let n = run.sim.commits.len();
+    let pick_nonroot = |r: &mut Rng, n: usize| if n > 1 { r.range(1, n - 1) } else { 0 };
+    let choice = r.below(100);
+    if n < 3 || choice < 28 {
+        // new commit: on root, on one commit, or a merge of 2–3 non-root commits
+        // (no children on commits recorded as rewritten/abandoned in the open batch, see notes)
+        let free: Vec<usize> = (1..n).filter(|c| !run.keys.contains(c)).collect();
+        Some(Op::New(if free.is_empty() || r.chance(1, 8) { vec![0] }
+            else if r.chance(3, 4) { vec![*r.pick(&free)] }
+            else { let mut v = vec![]; for _ in 0..r.range(2, 3) { let p = *r.pick(&free); if !v.contains(&p) { v.push(p); } } v }))
+    } else if choice < 40 {
+        let cands = key_candidates(run);
+        if cands.is_empty() { None } else { let c = *r.pick(&cands); Some(if r.chance(1, 2) { Op::Rw(c) } else { Op::Ab(c) }) }
+    } else if choice < 46 {
+        if run.keys.is_empty() { None } else { Some(Op::Rebase) }
+    } else if choice < 62 {
+        Some(Op::Bm(r.below(3), gen_target(r, n)))
+    } else if choice < 72 {
+        Some(Op::Edit(r.below(2), if probe_root && r.chance(1, 6) { 0 } else { pick_nonroot(r, n) }))
+    } else if choice < 80 {
+        let w = r.below(2);
+        let free: Vec<usize> = (0..n).filter(|c| !run.keys.contains(c)).collect();
+        Some(Op::Co(w, *r.pick(&free)))
+    } else if choice < 83 {
+        Some(Op::RmWs(r.below(2)))
+    } else if choice < 88 {
+        Some(Op::AddHead(if probe_root && r.chance(1, 4) { 0 } else { pick_nonroot(r, n) }))
+    } else if choice < 92 && low_level {
+        Some(Op::RmHead(r.below(n)))
+    } else if choice < 94 {
+        // raw set_wc_commit: visible commits only unless low_level
+        let vis = run.visible();
+        Some(Op::SetWc(r.below(2), if low_level { r.below(n) } else { *r.pick(&vis) }))
+    } else if !last { Some(Op::Commit) } else { None }
+}
+
+enum Source<'s> { Random { len: usize, low_level: bool, probe_root: bool }, Script(&'s [Op]) }
+
+fn one_sequence(test_repo: &TestRepo, out: &mut Out, r: &mut Rng, src: Source, stream: &str, coverage: bool) {
     // every sequence starts from the initial operation of a shared repo (heads = {root}, empty index)
     let repo = test_repo.repo.clone();
     let root = repo.store().root_commit();
@@ -254,81 +366,22 @@ fn one_sequence(test_repo: &TestRepo, out: &mut Out, r: &mut Rng, len: usize, lo
     sim.register(&root);
     let tx = repo.start_transaction();
     let mut run = Run { sim, tx: Some(tx), repo, ops: vec![], trace: vec![], keys: BTreeSet::new(), batch_floor: 1,
-                        failure: None, low_level, aborted: None, views: 0, out };
+                        failure: None, low_level: !coverage, aborted: None, views: 0, out };
     let res = guard(|| {
-        for step in 0..len {
-            if run.aborted.is_some() { break; }
-            let n = run.sim.commits.len();
-            let pick_nonroot = |r: &mut Rng, n: usize| if n > 1 { r.range(1, n - 1) } else { 0 };
-            let choice = r.below(100);
-            if n < 3 || choice < 28 {
-                // new commit: on root, on one commit, or a merge of 2–3 non-root commits
-                // (no children on commits recorded as rewritten/abandoned in the open batch, see notes)
-                let free: Vec<usize> = (1..n).filter(|c| !run.keys.contains(c)).collect();
-                let ps: Vec<usize> = if free.is_empty() || r.chance(1, 8) { vec![0] }
-                    else if r.chance(3, 4) { vec![*r.pick(&free)] }
-                    else { let mut v = vec![]; for _ in 0..r.range(2, 3) { let p = *r.pick(&free); if !v.contains(&p) { v.push(p); } } v };
-                run.do_new(&ps);
-            } else if choice < 40 {
-                let cands = key_candidates(&run);
-                if !cands.is_empty() { let c = *r.pick(&cands); if r.chance(1, 2) { run.do_rewrite(c) } else { run.do_abandon(c) } }
-            } else if choice < 46 {
-                if !run.keys.is_empty() { run.do_rebase(); }
-            } else if choice < 62 {
-                let name = r.below(3);
-                let t = gen_target(r, n);
-                let target = run.to_target(&t);
-                run.txm().set_local_bookmark_target(bname(name).as_ref(), target);
-                run.ops.push(format!("bm:{name}:{}", show_t(&t)));
-            } else if choice < 72 {
-                let (w, c) = (r.below(2), if probe_root && r.chance(1, 6) { 0 } else { pick_nonroot(r, n) });
-                let commit = run.sim.commits[c].clone();
-                let old = run.wc_of(w);
-                let e = run.txm().edit(wname(w), &commit).block_on();
-                run.ops.push(format!("edit:{w}:{c}"));
-                if e.is_err() { run.trace.push(format!("err@{}", run.ops.len() - 1)); }
-                run.note_wc_abandon(old);
-            } else if choice < 80 {
-                let w = r.below(2);
-                let free: Vec<usize> = (0..n).filter(|c| !run.keys.contains(c)).collect();
-                let c = *r.pick(&free);
-                let commit = run.sim.commits[c].clone();
-                let old = run.wc_of(w);
-                let newc = run.txm().check_out(wname(w), &commit).block_on().unwrap();
-                run.sim.register(&newc); run.sim.fix_parents();
-                run.ops.push(format!("co:{w}:{c}"));
-                run.note_wc_abandon(old);
-            } else if choice < 83 {
-                let w = r.below(2);
-                let old = run.wc_of(w);
-                run.txm().remove_workspace(wname(w).as_ref()).block_on().unwrap();
-                run.ops.push(format!("rmws:{w}"));
-                run.note_wc_abandon(old);
-            } else if choice < 88 {
-                let c = if probe_root && r.chance(1, 4) { 0 } else { pick_nonroot(r, n) };
-                let commit = run.sim.commits[c].clone();
-                run.txm().add_head(&commit).block_on().unwrap();
-                run.ops.push(format!("addhead:{c}"));
-            } else if choice < 92 && low_level {
-                let c = r.below(n);
-                let id = run.sim.commits[c].id().clone();
-                run.txm().remove_head(&id);
-                run.ops.push(format!("rmhead:{c}"));
-            } else if choice < 94 {
-                // raw set_wc_commit: visible commits only unless low_level
-                let vis = run.visible();
-                let c = if low_level { r.below(n) } else { *r.pick(&vis) };
-                let w = r.below(2);
-                let id = run.sim.commits[c].id().clone();
-                let e = run.txm().set_wc_commit(wname(w), id);
-                run.ops.push(format!("setwc:{w}:{c}"));
-                if e.is_err() { run.trace.push(format!("err@{}", run.ops.len() - 1)); }
-            } else if step + 1 < len {
-                run.do_commit();
+        match src {
+            Source::Random { len, low_level, probe_root } => {
+                for step in 0..len {
+                    if run.aborted.is_some() { break; }
+                    if let Some(op) = gen_op(&run, r, step + 1 == len, low_level, probe_root) { run.apply(&op); }
+                }
             }
+            Source::Script(ops) => for op in ops { if run.aborted.is_some() { break; } run.apply(op); },
         }
-        if run.aborted.is_none() { run.do_commit(); }
+        if run.aborted.is_none() && run.ops.last().map(|s| s.as_str()) != Some("commit") { run.do_commit(); }
     });
+    if std::env::var_os("C10_DEBUG").is_some() {
+        eprintln!("ops: {}\nparents: {:?}\ntrace: {}", run.ops.join(" "), run.sim.parents, run.trace.join(" "));
+    }
     if let Some(e) = &run.aborted {
         if !e.contains("already exists") { run.out.oracle_fail("heads:rebase-error", format!("{e}; ops={}", run.ops.join(" "))); }
         run.out.tally("discarded", "commit-id-collision");
@@ -337,13 +390,22 @@ fn one_sequence(test_repo: &TestRepo, out: &mut Out, r: &mut Rng, len: usize, lo
     let req = format!("run {}", run.ops.join(" "));
     let resp = match &res { Ok(()) => run.trace.join(" "), Err(_) => format!("{} panic", run.trace.join(" ")).trim().to_string() };
     run.out.case(&req, &resp);
-    run.out.tally("stream", if low_level { "normalisation-only" } else if probe_root { "root-probe" } else { "main" });
+    run.out.tally("stream", stream);
     run.out.tally("commits", &format!("{:02}", (run.sim.commits.len() / 5) * 5));
     if run.ops.iter().any(|o| o == "rebase") { run.out.tally("has", "rebase"); }
     if run.sim.commits.len() >= 4 && run.views >= 2 { let key = run.ops.clone(); run.out.nontrivial(key); }
     match (res, run.failure.take()) {
         (Err(e), _) => run.out.oracle_fail("heads:panic", format!("{e}; ops={}", run.ops.join(" "))),
-        (Ok(()), Some((sig, detail))) => { let ops = run.ops.join(" "); run.out.oracle_fail(sig, format!("{detail}; ops={ops}")) }
+        (Ok(()), Some((sig, detail))) => {
+            let ops = run.ops.join(" ");
+            // the root-probe stream is the only one that passes the root commit to `add_head`/`edit`;
+            // its failures get their own signature so that the generic one stays unexplained elsewhere
+            let root_op = run.ops.iter().any(|o| o == "addhead:0" || (o.starts_with("edit:") && o.ends_with(":0")));
+            // (a root left among the heads also defeats later fast-path updates: `add_head(child of root)`)
+            let sig = if root_op && (sig == "heads:root-among-other-heads" || sig == "heads:head-is-ancestor-of-head") {
+                "heads:not-normalized:after-add-head-of-root" } else { sig };
+            run.out.oracle_fail(sig, format!("{detail}; ops={ops}"))
+        }
         (Ok(()), None) => run.out.oracle_ok(),
     }
 }
@@ -354,18 +416,35 @@ pub fn run(cfg: &Cfg, out: &mut Out) {
         unsafe { std::env::set_var("TMPDIR", "/dev/shm") };
     }
     let mut r = cfg.rng(10);
-    let n = cfg.n(600, 20_000);
     let mut test_repo = TestRepo::init();
+    // `jjverif C10 --out DIR script <op> <op> …` replays one scripted sequence (debugging aid)
+    if cfg.extra.first().map(|s| s.as_str()) == Some("script") {
+        let ops: Vec<Op> = cfg.extra[1..].iter().map(|s| parse_op(s).expect("bad op")).collect();
+        one_sequence(&test_repo, out, &mut r, Source::Script(&ops), "script", true);
+        return;
+    }
+    let n = cfg.n(600, 20_000);
     for i in 0..n {
         if i % 100 == 99 { test_repo = TestRepo::init(); }
         let len = if i < 50 { 4 + (i as usize) / 5 } else { r.range(8, 40) };
-        one_sequence(&test_repo, out, &mut r, len, false, false);
+        one_sequence(&test_repo, out, &mut r, Source::Random { len, low_level: false, probe_root: false }, "main", true);
     }
     let mut r2 = cfg.rng(1010);
     for i in 0..cfg.n(150, 5_000) {
         if i % 100 == 99 { test_repo = TestRepo::init(); }
         let len = r2.range(6, 30);
-        one_sequence(&test_repo, out, &mut r2, len, true, false);
+        one_sequence(&test_repo, out, &mut r2, Source::Random { len, low_level: true, probe_root: false }, "normalisation-only", false);
+    }
+    // root probe: `add_head(root)` / `edit(ws, root)` (see notes/C10.md, known finding)
+    for script in ["new:0 commit addhead:0 commit", "new:0 commit edit:0:0 commit", "new:0 addhead:0 commit",
+                   "new:0 new:1 bm:0:2 commit edit:1:0 new:2 commit", "new:0 commit bm:0:0 commit", "new:0 commit co:0:0 commit"] {
+        let ops: Vec<Op> = script.split(' ').map(|s| parse_op(s).unwrap()).collect();
+        one_sequence(&test_repo, out, &mut r2, Source::Script(&ops), "root-probe", true);
+    }
+    let mut r3 = cfg.rng(2010);
+    for _ in 0..cfg.n(40, 1_000) {
+        let len = r3.range(4, 16);
+        one_sequence(&test_repo, out, &mut r3, Source::Random { len, low_level: false, probe_root: true }, "root-probe", true);
     }
     out.note(format!("{n} op sequences (main stream: full invariant) + normalisation-only stream with remove_head / raw set_wc_commit"));
 }
